@@ -29,6 +29,7 @@ import (
 	"strconv"
 	"strings"
 	"sync"
+	"sync/atomic"
 	"time"
 
 	"deps.dev/util/semver"
@@ -41,7 +42,12 @@ import (
 	"verif/harness/walkcase"
 )
 
-const stepTimeout = 20 * time.Second
+// a legitimate step takes micro- to milliseconds; a step that does not happen (the implementation deviates from what the
+// controller waits for) costs this much, so the number of such steps is bounded by desyncBudget
+const stepTimeout = 5 * time.Second
+const desyncBudget = 6
+
+var desyncsP, desyncsC atomic.Int32 // per stream: patches, cache
 
 // ------------------------------------------------------------------ (a) patches
 
@@ -404,10 +410,13 @@ func enumPatches(u *universe, limit int, emit func(c, r string), rng *rand.Rand)
 	head := u.head()
 	var dfs func(prefix [][]string)
 	dfs = func(prefix [][]string) {
-		if n >= limit {
+		if n >= limit || desyncsP.Load() >= desyncBudget {
 			return
 		}
 		pending, reply := runPatches(u, prefix)
+		if strings.HasPrefix(reply, "res=desync") {
+			desyncsP.Add(1)
+		}
 		if reply != "" {
 			n++
 			emit(head+" "+schedStr(prefix), reply)
@@ -863,11 +872,12 @@ func enumCache(keys []int, withSet bool, limit int, rng *rand.Rand, emit func(c,
 	head := "cache " + strings.Join(ks, ",") + " "
 	var dfs func(prefix []cact, setUsed bool)
 	dfs = func(prefix []cact, setUsed bool) {
-		if count >= limit {
+		if count >= limit || desyncsC.Load() >= desyncBudget {
 			return
 		}
 		cr := runCache(keys, prefix)
 		if cr.desync != "" {
+			desyncsC.Add(1)
 			count++
 			emit(head+actsStr(prefix), cr.reply)
 			return
